@@ -74,7 +74,7 @@ def main():
             return gen.materialize(net, outputs=src['outs'], storage=order)
         return gen.materialize(net, outputs=src['outs'])
 
-    c = build()
+    c = gen.clone(build(), {1: 1, 2: 2}.get(src.get('ss', 0) % 4, 0))     # a quarter deep-copied, a quarter pickled
     orig = project(copy.deepcopy(c))
     out = {'orig': orig, 'exc': '', 'where': '', 'stmt': ''}
     basis = src['basis']
